@@ -1,4 +1,5 @@
 import YaqsModel.Lemmas.Rank
+import YaqsModel.Lemmas.SplitAlgebra
 
 /-!
 # C09 — truncation discards at most the threshold weight and returns an optimal split
@@ -186,3 +187,43 @@ example : keepTwoSite [1, 1/2, 1/4, 1/8] (1/10) none = 2 ∧ keepTwoSite [1, 0, 
   decide +kernel
 
 end Yaqs.Rank
+
+namespace Yaqs.Split
+open Matrix
+
+variable {m n k k' : Type*} [Fintype m] [Fintype n] [Fintype k] [Fintype k'] [DecidableEq k] [DecidableEq k']
+variable {K : Type*} [CommRing K] [StarRing K]
+
+/-- **C09.6 (split error)** From the SVD spec `M = U diag(s) V`, `UᴴU = 1`, `VVᴴ = 1`: the contraction of the two
+    returned tensors (`U diag(s restricted to the kept values) V`) differs from the input by exactly the discarded
+    singular weight, `‖M − M_kept‖²_F = Σ_{i dropped} |s_i|²` — for every shape, every spectrum and every choice
+    of kept set (in particular the prefix the rank rules choose). -/
+theorem c09_split_error (U : Matrix m k K) (V : Matrix k n K) (s : k → K)
+    (hU : Uᴴ * U = 1) (hV : V * Vᴴ = 1) (kept : k → Prop) [DecidablePred kept] :
+    frobSq (U * diagonal s * V - U * diagonal (maskKept kept s) * V)
+      = ∑ i, if kept i then 0 else star (s i) * s i := by
+  rw [sub_masked, frobSq_UDV U V _ hU hV]
+  apply Finset.sum_congr rfl
+  intro i _
+  simp only [maskDropped]
+  split <;> simp
+
+/-- **C09.5 (distributions)** "left", "right" and "sqrt" give the same product: with `r i * r i = s i`,
+    `(U diag s) V = U (diag s V) = (U diag r)(diag r V)`. -/
+theorem c09_distributions_same_product (U : Matrix m k K) (V : Matrix k n K) (s r : k → K)
+    (hr : ∀ i, r i * r i = s i) :
+    (U * diagonal s) * V = U * (diagonal s * V) ∧
+    (U * diagonal r) * (diagonal r * V) = U * (diagonal s * V) := by
+  refine ⟨Matrix.mul_assoc _ _ _, ?_⟩
+  rw [Matrix.mul_assoc, ← Matrix.mul_assoc (diagonal r), diagonal_mul_diagonal]
+  congr 3
+  funext i
+  exact hr i
+
+/-- **C09.5b (advertised factor isometric)** the kept columns of `U` (distribution "right") form an isometry; the
+    kept rows of `V` (distribution "left") are handled by the same lemma applied to `Vᴴ`. -/
+theorem c09_kept_factor_isometric (U : Matrix m k K) (hU : Uᴴ * U = 1) (e : k' → k)
+    (he : Function.Injective e) : (U.submatrix id e)ᴴ * (U.submatrix id e) = 1 :=
+  isometry_submatrix U hU e he
+
+end Yaqs.Split
